@@ -394,5 +394,68 @@ func engineC39(c *vctx) error {
 			c39Run(c, d, cm)
 		}
 	}
+	// (a) prune has work to do but no pack is completely unused: two backups sharing a directory and a
+	// file, the older one forgotten: only partly used packs to repack
+	pa := newVenv(c, "partly")
+	if _, _, err := pa.cli("init"); err != nil {
+		return err
+	}
+	src2 := filepath.Join(c.dir, "src2")
+	_ = os.MkdirAll(filepath.Join(src2, "d"), 0o755)
+	_ = os.WriteFile(filepath.Join(src2, "d", "keep.bin"), rng.bytes(30000), 0o644)
+	_ = os.WriteFile(filepath.Join(src2, "d", "keep2.txt"), []byte("kept in both snapshots"), 0o644)
+	_ = os.WriteFile(filepath.Join(src2, "a.txt"), rng.bytes(20000), 0o644)
+	if _, _, err := pa.cli("backup", src2); err != nil {
+		return err
+	}
+	_ = os.WriteFile(filepath.Join(src2, "a.txt"), rng.bytes(25000), 0o644)
+	if _, _, err := pa.cli("backup", src2); err != nil {
+		return err
+	}
+	if so, _, err := pa.cli("snapshots", "--json"); err == nil {
+		if pids := c39ShortIDs(so); len(pids) == 2 {
+			for _, cm := range []c39Cmd{
+				{"CForget", "forget-partly-used", true, false, []string{"forget", pids[0], "--prune", "--max-unused", "0"}},
+				{"CForget", "forget-partly-used", true, true, []string{"forget", pids[0], "--prune", "--max-unused", "0"}},
+			} {
+				c39Run(c, pa, cm)
+			}
+			if _, _, err := pa.cli("forget", pids[0]); err != nil {
+				return err
+			}
+			for _, cm := range []c39Cmd{
+				{"CPrune", "prune-partly-used", true, false, []string{"prune", "--max-unused", "0"}},
+				{"CPrune", "prune-partly-used", true, true, []string{"prune", "--max-unused", "0"}},
+				{"CPrune", "prune-partly-used", true, false, []string{"prune", "--max-unused", "0", "--repack-uncompressed"}},
+				{"CPrune", "prune-partly-used", true, false, []string{"prune"}},
+			} {
+				c39Run(c, pa, cm)
+			}
+		}
+	}
+	// (b) a stray pack file that no index knows, nothing else to do
+	st := newVenv(c, "stray")
+	if _, _, err := st.cli("init"); err != nil {
+		return err
+	}
+	if _, _, err := st.cli("backup", src2); err != nil {
+		return err
+	}
+	for p2 := range pa.repoFiles() {
+		if strings.HasPrefix(p2, "data"+string(filepath.Separator)) {
+			if b, err := os.ReadFile(filepath.Join(pa.repo, p2)); err == nil {
+				_ = os.MkdirAll(filepath.Dir(filepath.Join(st.repo, p2)), 0o700)
+				_ = os.WriteFile(filepath.Join(st.repo, p2), b, 0o600)
+				break
+			}
+		}
+	}
+	for _, cm := range []c39Cmd{
+		{"CPrune", "prune-stray-pack", true, false, []string{"prune"}},
+		{"CPrune", "prune-stray-pack", true, true, []string{"prune"}},
+		{"CForget", "forget-stray-pack", true, false, []string{"forget", "--keep-last", "1", "--prune"}},
+	} {
+		c39Run(c, st, cm)
+	}
 	return nil
 }
